@@ -247,6 +247,11 @@ func (i *Interpreter) createDirectorRequest(ctx *context.Context, dc *value.Dire
 	if err != nil {
 		return nil, errors.WithStack(err)
 	}
+	// The determined backend may be another director, then it determines the actual backend.
+	// A director could only have directors which are declared before so that it never be recursive
+	if backend.Director != nil {
+		return i.createDirectorRequest(ctx, backend.Director)
+	}
 	// Keep the backend which the director has determined, following processes send the request to it
 	ctx.Backend.Value = backend.Value
 	return i.createBackendRequest(ctx, backend)
@@ -383,7 +388,7 @@ func (i *Interpreter) directorBackendConsistentHash(dc *value.DirectorConfig) (*
 			binary.BigEndian.PutUint32(buf, dc.Seed)
 			hash := sha256.New() // TODO: consider to user hash/fnv for getting performance guarantee
 			hash.Write(buf)
-			hash.Write([]byte(v.Backend.Value.Name.Value))
+			hash.Write([]byte(v.Backend.String()))
 			hash.Write(fmt.Append([]byte{}, i))
 			h := hash.Sum(nil)
 			num := binary.BigEndian.Uint32(h[:8]) % maxNum
@@ -437,7 +442,11 @@ func (i *Interpreter) getBackendByHash(dc *value.DirectorConfig, hash []byte) (*
 			if !v.Backend.Healthy.Load() {
 				continue
 			}
-			bh := sha256.Sum256([]byte(v.Backend.Value.String()))
+			id := v.Backend.String() // backend may be another director
+			if v.Backend.Value != nil {
+				id = v.Backend.Value.String()
+			}
+			bh := sha256.Sum256([]byte(id))
 			b := binary.BigEndian.Uint64(bh[:8])
 			if b%(maxNum*10) >= num && b%(maxNum*10) < num+maxNum {
 				target = v.Backend
